@@ -35,7 +35,22 @@ _SCHED_ASSUME = ["ring operations are atomic steps (C14 + regenerated lock-shape
                  "every interleaving of the modelled atomic steps is possible and no other (Go memory model, runtime scheduler)",
                  "scheduling points of the real code are exactly its atomic operations and mutex acquisitions (shimmed at build time)"]
 
+_PROC_RULE = ("proc: real process.Start/Invoke/tryRestart/cleanup on one goroutine with scripted receiver, recording middlewares, recording Inboxer and synchronous "
+              "event stream; model-directed enumeration of every (budget 0..2) x (batch length 1..4) x (pill graceful/non-graceful at every position or none) x "
+              "(one or two panics at every delivery position incl. Initialized/Started of later incarnations), plus seeded random histories (1-3 batches of 1-6 items, "
+              "0-3 pills, scripts with panics and InternalErrors, budgets 0..3, chains 0..3); non-trivial = at least one panic or pill; distinct = distinct input lines")
+_PROC_STREAM = dict(name="proc", pkg="actor", test="TestVerifProc", shrink_key="hist")
+_PROC_ASSUME = ["the receiver never panics while handling Stopped (outside every property's quantifier)",
+                "MaxRestarts >= 0; RestartDelay is not modelled (0 in the harness)",
+                "children are not part of this stream (C08)",
+                "batches are offered to Invoke one after the other while the inbox is open, as the worker loop does (interleaving with senders is C01-C03)"]
+
 PROPS = {
+    "C04": dict(lean_modules=["HW.Props.C04"], streams=[_PROC_STREAM], rule=_PROC_RULE, assumptions=_PROC_ASSUME, spec_relevant=r"FAIL:(\S*C04|harness)"),
+    "C05": dict(lean_modules=["HW.Props.C05"], streams=[_PROC_STREAM], rule=_PROC_RULE, assumptions=_PROC_ASSUME, spec_relevant=r"FAIL:(\S*C05|harness)"),
+    "C06": dict(lean_modules=["HW.Props.C06"], facts=True, streams=[_PROC_STREAM], rule=_PROC_RULE, assumptions=_PROC_ASSUME, spec_relevant=r"FAIL:(\S*C06|harness)"),
+    "C07": dict(lean_modules=["HW.Props.C07"], streams=[_PROC_STREAM], rule=_PROC_RULE, assumptions=_PROC_ASSUME, spec_relevant=r"FAIL:(\S*C07|harness)"),
+    "C13": dict(lean_modules=["HW.Props.C13"], streams=[_PROC_STREAM], rule=_PROC_RULE, assumptions=_PROC_ASSUME, spec_relevant=r"FAIL:(\S*C13|harness)"),
     "C01": dict(lean_modules=["HW.Props.C01"], facts=True, streams=[_SCHED_STREAM], rule=_SCHED_RULE, assumptions=_SCHED_ASSUME,
                 spec_relevant=r"FAIL:(C01|C03|harness)"),
     "C02": dict(lean_modules=["HW.Props.C02"], facts=True, streams=[_SCHED_STREAM], rule=_SCHED_RULE, assumptions=_SCHED_ASSUME,
@@ -75,7 +90,7 @@ PROPS = {
 # Properties without a check yet are listed here (kept current; see DESIGN.md section 7).
 _PENDING = "machinery for this property is not built yet in this revision (planned: Lean model + theorem + correspondence, see DESIGN.md section 4); not claimed until its check exists"
 # checks that exist but whose proofs are not complete yet are not claimed in MANIFEST.json
-NOT_READY = set()
+NOT_READY = {"C04", "C05", "C06", "C07", "C13"}
 NOT_APPLICABLE = {pid: _PENDING for pid in ["C%02d" % i for i in range(1, 21)] if pid not in PROPS or pid in NOT_READY}
 
 MANIFEST_TEXT = {
@@ -128,5 +143,46 @@ MANIFEST_TEXT = {
         design_ref="DESIGN.md section 4, C02/C03 and Appendix A",
         note="Trusted: Lean kernel; fairness of the Go scheduler (not modelled); ring operations as atomic steps.",
         technique="Lean 4 inductive invariant (pending-scheduler disjunction) + schedule-level differential correspondence",
+    ),
+    "C04": dict(
+        text="Machine-checked: for every restart budget, chain length, crash script and history of user messages and poison pills, the trace of the transcribed "
+             "process.go (Start/Invoke/tryRestart/cleanup, panics as outcomes) is accepted by the life-cycle automaton: per incarnation Initialized, Started, messages, "
+             "one final Stopped, a new incarnation only after the previous Stopped, nothing afterwards. Tied to the code by exact trace comparison on model-directed "
+             "enumeration of pill x crash positions and seeded random histories run through the real process code.",
+        design_ref="DESIGN.md section 4, C04-C07 and Appendix B",
+        note="Trusted: Lean kernel; defer/recover semantics as transcribed; the retention of messages sent between registration and inbox start is the L1 starter phase (C01/C03); receivers that panic while handling Stopped are outside the claim.",
+        technique="Lean 4 induction over a fuel-indexed big-step semantics with an automaton invariant + trace-level differential correspondence",
+    ),
+    "C05": dict(
+        text="Machine-checked containment (no panic propagates out of Start/Invoke/tryRestart for any script) and replay: over all incarnations the user messages "
+             "received are a prefix of the history - each at most once, in order, own sender, the failing message never again - and all of it if the actor is alive at the end; "
+             "restart events numbered 1,2,3... Tied to the code by exact trace comparison (same stream as C04).",
+        design_ref="DESIGN.md section 4, C04-C07",
+        note="Trusted: Lean kernel; concurrent senders during the restart delay are covered by C01 (messages stay in the ring while the worker is inside Invoke); RestartDelay not modelled.",
+        technique="Lean 4 induction over the fuel-indexed semantics (pending-message accounting) + trace-level differential correspondence",
+    ),
+    "C06": dict(
+        text="Machine-checked: number of restart events <= MaxRestarts for every script and history; the panic that exhausts the budget yields ActorMaxRestartsExceededEvent, "
+             "inbox stop, unregistration, one Stopped, ActorStoppedEvent and nothing else; no panic escapes. Tied to the code by exact trace comparison incl. budgets 0..3 and "
+             "budget exhaustion in the first batch, during replay and in Initialized/Started.",
+        design_ref="DESIGN.md section 4, C04-C07",
+        note="Trusted: Lean kernel; MaxRestarts >= 0 (a negative value never equals the counter: unbounded restarts, outside the property); children are C08; InternalError restarts bypass the budget by design.",
+        technique="Lean 4 invariant (counter = number of restart events <= budget) over the fuel-indexed semantics + trace-level differential correspondence",
+    ),
+    "C07": dict(
+        text="Machine-checked: every cancel comes after the final Stopped and the unregistration and, for a graceful pill, after every earlier message was handled (all histories); "
+             "a single pill is cancelled exactly once even if the actor crashes while draining (partial). The full claim 'every pill is cancelled' is FALSE for the code: the negation is "
+             "proved with a concrete witness and the witness is replayed on the implementation on every run (known finding KF-D4). Tied to the code by exact trace comparison.",
+        design_ref="DESIGN.md section 4, C04-C07; section 5 (D4)",
+        note="Partial: pills the actor never gets to handle are a known finding; unknown/stopped PID (registry miss => dead letter + immediate cancel) is decision logic of Engine.sendPoisonPill covered by C09's stream; parent-initiated shutdown is C08.",
+        technique="Lean 4 proof of cancel-ordering acceptor + proved counter-example for the full statement + trace-level differential correspondence",
+    ),
+    "C13": dict(
+        text="Machine-checked: applyMiddleware runs the first middleware outermost and the receiver last, each once, for every chain length (induction on the chain); every delivery "
+             "of every history (all life-cycle paths: spawn, stop, poison, crash, restart, max-restarts) goes through the whole chain. Tied to the code by recording middlewares on all paths "
+             "(entry order and message/sender coherence recorded at each delivery).",
+        design_ref="DESIGN.md section 4, C13",
+        note="Trusted: Lean kernel; middleware functions are modelled as enter/exit markers (a middleware that does not call next is user behaviour outside the property).",
+        technique="Lean 4 induction on the chain + invariant over the process semantics + trace-level differential correspondence",
     ),
 }
